@@ -105,6 +105,18 @@ func (b *builder) typ(t TRef) schema.Type {
 	return ret
 }
 
+// enumGoValue is the Go value of the enum value `name` of enum `typ`.
+func (b *builder) enumGoValue(typ, name string) interface{} {
+	if td := b.d.typeByName(typ); td != nil {
+		for _, v := range td.Values {
+			if v.Name == name && v.GoVal != "" {
+				return v.GoVal
+			}
+		}
+	}
+	return ev{T: typ, N: name}
+}
+
 // goValue is the Go value a default denotes (the coercion normal form, see gen.value).
 func (b *builder) goValue(v Val, t TRef, top bool) interface{} {
 	if v.K == "null" {
@@ -124,7 +136,7 @@ func (b *builder) goValue(v Val, t TRef, top bool) interface{} {
 	case "bool":
 		return v.B
 	case "enum":
-		return ev{T: t.N, N: v.S}
+		return b.enumGoValue(t.N, v.S)
 	case "list":
 		out := make([]interface{}, len(v.L))
 		inner := t
@@ -293,7 +305,7 @@ func build(d *SDef) *built {
 			n.Directives = b.applied(t.Dirs)
 			n.Values = map[string]*schema.EnumValueDefinition{}
 			for _, v := range t.Values {
-				n.Values[v.Name] = &schema.EnumValueDefinition{Description: v.Desc, DeprecationReason: v.Depr, Value: ev{T: t.Name, N: v.Name}, Directives: b.applied(v.Dirs)}
+				n.Values[v.Name] = &schema.EnumValueDefinition{Description: v.Desc, DeprecationReason: v.Depr, Value: b.enumGoValue(t.Name, v.Name), Directives: b.applied(v.Dirs)}
 			}
 		case *schema.InputObjectType:
 			n.Directives = b.applied(t.Dirs)
